@@ -493,6 +493,20 @@ impl<Writer> MuxerBuilder<Writer> {
             }
         };
 
+        // The visual sample entry holds width/height in 16 bits and the configuration records
+        // hold each parameter-set length in 16 bits: report values that do not fit.
+        let fits = width <= u16::MAX as u32
+            && height <= u16::MAX as u32
+            && sps.len() <= u16::MAX as usize
+            && pps.len() <= u16::MAX as usize
+            && vps.as_ref().map_or(true, |v| v.len() <= u16::MAX as usize);
+        if !fits {
+            return Err(MuxerError::Io(std::io::Error::new(
+                std::io::ErrorKind::InvalidInput,
+                "video dimensions and parameter-set lengths must fit in 16 bits",
+            )));
+        }
+
         let config = FragmentConfig {
             width,
             height,
